@@ -31,6 +31,17 @@ VIOL_CLASSES = {'UserViolation': UserViolation, 'UserViolation2': UserViolation2
 ENTRY_POINTS = ('is_bearable', 'die_if_unbearable', 'TypeHint.is_bearable', 'TypeHint.die_if_unbearable',
                 'param', 'return')
 
+
+
+def entry_points_for(node):
+    """beartype.door.TypeHint documents PEP 695 type aliases as "currently unsupported" (BeartypeDoorNonpepException at
+    construction, or when the children of the wrapper are built): hints mentioning an alias are outside the domain of the two
+    TypeHint entry points; the functional door API and the decorator support them."""
+    if 'alias' in H.node_kinds(node):
+        return tuple(ep for ep in ENTRY_POINTS if not ep.startswith('TypeHint.'))
+    return ENTRY_POINTS
+
+
 _CONFS = {}
 
 
